@@ -182,7 +182,8 @@ fn mod_lockstep<const L: usize>(c: &Case, rep: &mut Rep) {
     let nzbm = nzb(m);
     let mut r1 = ScriptRng::new(script.clone(), seed);
     let mut r2 = ScriptRng::new(script.clone(), seed);
-    let mut r3 = ScriptRng::new(script, seed);
+    let mut r3 = ScriptRng::new(script.clone(), seed);
+    let mut r4 = ScriptRng::new(script, seed);
     let nl = bits_of(m).div_ceil(64);
     let top = m[nl - 1];
     let mask = u64::MAX >> top.leading_zeros();
@@ -201,9 +202,14 @@ fn mod_lockstep<const L: usize>(c: &Case, rep: &mut Rep) {
         }
         let b = BoxedUint::random_mod(&mut r2, &nzbm);
         let c3 = Uint::<L>::try_random_mod(&mut r3, &nzm).expect("infallible");
+        // the fallible boxed form draws on its own copy of the same stream
+        let b4 = BoxedUint::try_random_mod(&mut r4, &nzbm).expect("infallible");
         if r1.exhausted {
             rep.inconclusive("random_mod: word budget exhausted (stream never accepted)".into());
             return;
+        }
+        if bl(&b4) != bl(&b) || b4.nlimbs() != L {
+            rep.fail("boxed.random_mod.eq_try_random_mod", format!("draw {}: random_mod {} try_random_mod {}", k, hex(&bl(&b)), hex(&bl(&b4))));
         }
         if ub(&a) >= mb {
             rep.fail("random_mod.lt_modulus", format!("draw {}: {} >= m", k, hex(&ul(&a))));
@@ -227,6 +233,9 @@ fn mod_lockstep<const L: usize>(c: &Case, rep: &mut Rep) {
             rep.class("early_reject");
         }
         let _ = mask;
+    }
+    if r4.log != r2.log {
+        rep.fail("boxed.try_random_mod.same_consumption_as_random_mod", format!("random_mod made {} calls, try_random_mod {}", r2.log.len(), r4.log.len()));
     }
     if r1.log != r2.log {
         rep.fail("random_mod.fixed_boxed_same_consumption", format!("fixed made {} calls, boxed {}", r1.log.len(), r2.log.len()));
@@ -550,6 +559,16 @@ fn bits_case<const L: usize>(c: &Case, rep: &mut Rep) {
             }
             Err(e) => rep.fail("try_random_bits_with_precision.mismatch_kind", format!("{:?}", e)),
             Ok(_) => rep.fail("try_random_bits_with_precision.mismatch_is_error", format!("precision {} accepted for a {}-bit type", wrong, bits)),
+        }
+        // the signed form has the same contract
+        match Int::<L>::try_random_bits_with_precision(&mut r6, k.min(wrong), wrong) {
+            Err(RandomBitsError::BitsPrecisionMismatch { bits_precision, integer_bits }) => {
+                if bits_precision != wrong || integer_bits != bits {
+                    rep.fail("Int::try_random_bits_with_precision.mismatch_fields", "wrong fields".into());
+                }
+            }
+            Err(e) => rep.fail("Int::try_random_bits_with_precision.mismatch_kind", format!("{:?}", e)),
+            Ok(_) => rep.fail("Int::try_random_bits_with_precision.mismatch_is_error", format!("precision {} accepted for a {}-bit type", wrong, bits)),
         }
     }
     // boxed: precision not a multiple of 64, bit_length up to the requested precision only
